@@ -358,11 +358,21 @@ pub fn gen_concat(
                 if !lenient && prev & K_Z != 0 {
                     continue;
                 }
-                // never directly adjacent in the same concatenation (lexes differently)
-                if e.iter().rev().find(|x| !x.is_flag()).map_or(false, |x| x.is_zom()) {
-                    continue;
+                // directly adjacent in the same concatenation: `**` lexes differently, and `*$` /
+                // `$*` / `$$` are rule violations (only generated in the rule-agnostic mode)
+                match e.iter().rev().find(|x| !x.is_flag()) {
+                    Some(Tok::Zom { lazy: prev_lazy }) => {
+                        if !lenient {
+                            continue;
+                        }
+                        let lazy = t.chance(64);
+                        if !(*prev_lazy || lazy) {
+                            continue;
+                        }
+                        Tok::Zom { lazy }
+                    },
+                    _ => Tok::Zom { lazy: t.chance(64) },
                 }
-                Tok::Zom { lazy: t.chance(64) }
             },
             4 => {
                 if !lenient && prev & K_B != 0 {
